@@ -72,13 +72,18 @@ func vrtRegexpMatch(name []byte, raw string) bool {
 func vrtDomainText(n int, trailingDot bool) string {
 	b := make([]byte, 0, n+1)
 	prevDot := true
+	single := vrtParam("single_letter_labels", 0) == 1 // deep-nesting variant: a.b.c.d, no choice of dot positions
 	for i := 0; i < n; i++ {
-		if !prevDot && i < n-1 && vrtChoice(2) == 1 {
+		if !prevDot && i < n-1 && (single || vrtChoice(2) == 1) {
 			b = append(b, '.')
 			prevDot = true
 			continue
 		}
-		b = append(b, byte(vrtIteU64(vrtBool(), 'a', vrtIteU64(vrtBool(), 'b', 'A'))))
+		if single {
+			b = append(b, byte(vrtIteU64(vrtBool(), 'a', 'b'))) // deep variant: two letters, case is covered by the other variants
+		} else {
+			b = append(b, byte(vrtIteU64(vrtBool(), 'a', vrtIteU64(vrtBool(), 'b', 'A'))))
+		}
 		prevDot = false
 	}
 	if trailingDot {
@@ -110,7 +115,7 @@ func vrtHarness_C12_mix() {
 		typ := only
 		if only == 0 {
 			typ = vrtChoice(5)
-		} else if vrtChoice(2) == 1 {
+		} else if vrtParam("plain", 0) == 0 && vrtChoice(2) == 1 {
 			typ = 0 // no prefix: the default type (= the same type)
 		}
 		eff := typ
@@ -118,16 +123,23 @@ func vrtHarness_C12_mix() {
 			eff = def
 		}
 		n := 1 + vrtChoice(maxPat)
+		if mp := vrtParam("min_pattern", 0); mp > 0 {
+			n = mp + 2*vrtChoice((maxPat-mp)/2+1) // odd lengths only: a.b.c ... (deep-nesting variant)
+		}
 		var pat string
 		if eff == 4 {
 			pat = vrtDomainText(n, false) // regexp: lower/upper letters and '.', applied as written
 		} else {
-			pat = vrtDomainText(n, vrtChoice(2) == 1)
+			pat = vrtDomainText(n, vrtParam("plain", 0) == 0 && vrtChoice(2) == 1)
 		}
 		vrtAssume(Load[int](m, prefixes[typ]+pat, func(s string) (string, int, error) { return s, i + 1, nil }) == nil)
 		rules = append(rules, vrtRule{typ: eff, pat: pat, norm: vrtNorm(pat)})
 	}
-	name := vrtDomainText(1+vrtChoice(maxName), vrtChoice(2) == 1)
+	nameLen := 1 + vrtChoice(maxName)
+	if vrtParam("plain", 0) == 1 {
+		nameLen = 1 + 2*vrtChoice((maxName+1)/2) // odd lengths: whole single-letter labels
+	}
+	name := vrtDomainText(nameLen, vrtParam("plain", 0) == 0 && vrtChoice(2) == 1)
 	nn := vrtNorm(name)
 
 	got, ok := m.Match(name)
